@@ -234,7 +234,7 @@ let handle_having (n : int) (k : int) (hdr : string list) (hid : string list) (p
    value for window b-1 (b = 0: always), holding exactly the changed calls (the suppression rule is the analytic
    engine's - C14's subject - applied here to the model's values).  The delivered rows, in order of arrival, must be
    those rows, every value the definition over the rows of ITS window.  The model is the code as found: a call with an
-   arithmetic argument is computed over the bare column (finding F59, verdict inline_agg_arg_dropped when the
+   arithmetic argument is computed over the bare column (finding F60, verdict inline_agg_arg_dropped when the
    implementation agrees with that model and not with the definition; never hides another violation of the case).  A value that is the definition over the rows
    of several consecutive windows is reported as batch_state_leak. *)
 let res_same (a : res option) (b : res option) : bool =
@@ -250,7 +250,7 @@ let handle_suppressed (n : int) (k : int) (hdr : string list) (cells : string li
   let cells = List.map cell_of_tok cells in
   let batches = chunks n cells in
   let nb = List.length batches in
-  (* the code as found (F59): the hidden aggregate of a call inside an analytic function reads the bare column *)
+  (* the code as found (F60): the hidden aggregate of a call inside an analytic function reads the bare column *)
   let asis = List.mapi (fun j (_, f, m, sh) -> inline_field_asis f (m = MStar) (nested j) sh) fields in
   let mds = sel_run asis (sel_init asis) batches in
   (* expected rows: (window, per call: Some model value if changed) *)
